@@ -313,6 +313,8 @@ def run(ctx):
             ck.ob('C01-c', 'R8.layout', wname, 'writer-vs-reader:' + part, rs == ws,
                   'writer emits what the reader parses: %s' % ws if rs == ws else
                   'writer emits %s but the reader parses %s' % (ws, rs), wf.file, wf.line, config=config)
+        from . import c06
+        c06.fill_clauses(ck, prog, config, 'C01-c')
         # ---- d
         zw = prog.need_func('zck_write')
         # the source cursor and the remaining size are the locals handed to comp_write(zck, cursor, remaining)
